@@ -41,6 +41,15 @@ type Manager struct {
 	cache  []cacheEntry
 	ccache map[[2]Node]Node
 	names  map[int32]string
+	// Limit bounds the node table; exceeding it panics with *Budget.
+	Limit int
+}
+
+// Budget is the panic payload when the node table outgrows Limit.
+type Budget struct{ Nodes int }
+
+func (b *Budget) Error() string {
+	return fmt.Sprintf("value-domain budget exceeded (%d BDD nodes)", b.Nodes)
 }
 
 const cacheBits = 16
@@ -52,6 +61,7 @@ func New() *Manager {
 		cache:  make([]cacheEntry, 1<<cacheBits),
 		ccache: make(map[[2]Node]Node),
 		names:  make(map[int32]string),
+		Limit:  4 << 20,
 	}
 	m.nodes = append(m.nodes, node{termLevel, 0, 0}, node{termLevel, 1, 1})
 	return m
@@ -67,6 +77,9 @@ func (m *Manager) mk(level int32, lo, hi Node) Node {
 	k := node{level, lo, hi}
 	if n, ok := m.unique[k]; ok {
 		return n
+	}
+	if m.Limit > 0 && len(m.nodes) > m.Limit {
+		panic(&Budget{len(m.nodes)})
 	}
 	n := Node(len(m.nodes))
 	m.nodes = append(m.nodes, k)
